@@ -164,8 +164,17 @@ func (t *VTok) M__iter__() (py.Object, error) {
 	return t, nil
 }
 
-func (t *VTok) M__next__() (py.Object, error) {
-	vLog = append(vLog, "next("+vName(t)+")")
+func (t *VTok) M__next__() (py.Object, error) { return t.produce("next(" + vName(t) + ")") }
+
+// Send: a token is also a coroutine-like delegate: send(v) is logged with the
+// value sent and then behaves as next() (the entry starts with "next(" so that
+// vNextOutcomes counts it)
+func (t *VTok) Send(v py.Object) (py.Object, error) {
+	return t.produce("next(" + vName(t) + ";send=" + vName(v) + ")")
+}
+
+func (t *VTok) produce(entry string) (py.Object, error) {
+	vLog = append(vLog, entry)
 	n := 3
 	if t.nexts >= vMaxItems {
 		n = 2 // bounded producer: only exhaustion or failure remain
